@@ -153,7 +153,7 @@ EXPLANATION = "Partial claim: instance-release postconditions on the command man
 
 def replay(obligation, witness):
     import contracts.c10_native as n
-    r = n.invalid_arguments_then_stop()
+    r = n.stop_while_uod_commands_follow_back_to_back() if "EngineCommand._run" in obligation else n.invalid_arguments_then_stop()
     return {"confirmed": bool(r["violated"]), **r}
 
 
@@ -166,5 +166,38 @@ def _nat():
     return {"ok": not r["violated"], "observation": r}
 
 
-NATIVE = [("native:invalid-arguments-then-stop-leaves-no-instance", _nat)]
+def _nat2():
+    import contracts.c10_native as n
+    r = n.stop_while_uod_commands_follow_back_to_back()
+    return {"ok": not r["violated"], "observation": r}
+
+
+NATIVE = [("native:invalid-arguments-then-stop-leaves-no-instance", _nat), ("native:stop-at-any-tick-of-back-to-back-commands-leaves-no-instance", _nat2)]
 BOUNDED = ["one native scenario on the real engine (command with rejected arguments, then Stop): bounded, not counted"]
+
+
+# ---- (e) Stop / Restart gate the interpreter between the cancellation of all commands and their completion -------------------------
+# Stop and Restart take two ticks: the first cancels and finalizes every command, the second completes. Engine.tick runs the interpreter
+# only while `_runstate_stopping` is False, so the flag must be set at the yield between the two ticks: otherwise the interpreter
+# starts the method's next UOD command after the cancellation and that instance survives the Stop.
+import contracts.c06 as _c06          # noqa: E402
+from contracts.runstate import EN as _EN   # noqa: E402
+
+
+def _gated_yield(ctx):
+    if getattr(ctx.fr, "yield_count", 0) == 0:      # the yield directly after cancel_all_commands (later yields of Restart follow the completion)
+        ctx.check_w("interpreter-is-gated-between-cancellation-and-completion", ctx.spec_bool(f"{_EN}._runstate_stopping == True"),
+                    lambda m: {"at": "the yield after cancel_all_commands"}, "interference-guarantee")
+    _c06.on_yield(ctx)
+
+
+def _gate(cls):
+    base = [c for c in _c06.CONTRACTS if c.target.endswith(cls + "._run")][0]
+    return Contract(target=base.target, variant="gate", types=dict(base.types, **{"Engine._runstate_stopping": "bool"}), calls=base.calls,
+                    requires=base.requires, ensures=[("gate-released-when-the-command-completes",
+                                                      f'implies(old({_EN}.ghost_sys_state) not in ["Stopped", "Restarting"], not {_EN}._runstate_stopping)')],
+                    raises=base.raises, loops=base.loops, on_yield=_gated_yield, options=base.options)
+
+
+CONTRACTS = CONTRACTS + [_gate("StopEngineCommand"), _gate("RestartEngineCommand")]
+TARGETS = [c.key for c in CONTRACTS]
